@@ -28,6 +28,14 @@ reactions.  The specification side does not look at the history: every step must
 written, applied alone in an interpreter of its own (G1/G2), its own un-pruned gluing (G5), and G3/G4 on the step itself.  A
 failing history is cut down to the failing step alone, else one earlier step + the failing step, else the prefix.
 
+Explicit re-match stream (`xh`).  A template whose pattern keeps an X-H bond (the hydrogen has no heavy neighbour on one side of the
+rule: H+ or H2 released / consumed; or any explicit-H template applied with `implicit_temp=True, explicit_h=False`) is glued through
+`SynReactor._get_explicit_map`: hydrogens of the matched atoms expanded, the pattern with its hydrogens matched again, every re-match
+glued.  Corpus templates almost never get there, so the stream writes its own population (`xh_templates`: deprotonation of one of
+two equal alpha positions / X-H ends, dehydrogenations, hydrogenations, H-X additions and eliminations, shifts; most with a left-hand
+symmetry that the right-hand side breaks, and unbroken controls) on generated unsymmetrical substrates and a few hand-written ones, in
+BOTH hydrogen modes, full ITS or centre, both directions, gates G1-G5 as they are, plus histories over the same chemistries.
+
 Sets are compared as sets of strings; when they differ, they are compared once more with bond orders
 forgotten (`reactor_inv_common.kekule_blind`: same skeleton, hydrogens, charges).  Equality there means the
 two runs differ only in which Kekule form RDKit wrote for a ring it was handed as aromatic but does not
@@ -397,6 +405,9 @@ def run(ctx):
         "embed_threshold left at its default (5000 embeddings): a search that exceeds it returns nothing for every numbering alike",
         "e2e stream: implicit path only (pattern without explicit hydrogen, no wildcard); (template, substrate) pairs with more than 300 "
         "embeddings of the pattern are skipped and counted (the model's exhaustive strategy has no threshold)",
+        "xh stream: explicit-H rule-like templates applied in BOTH reactor modes (defaults, and implicit_temp=True / explicit_h=False, which is "
+        "the only way an X-H bond whose hydrogen has heavy neighbours on both sides stays in the pattern); only the invariances of C05 are "
+        "gated there, nothing about which reactions are right (that is C03's reading of the modes, DESIGN 5a)",
     ]
     quick = ctx.quick
     k = 2
@@ -414,7 +425,12 @@ def run(ctx):
         "a quarter of the histories a 'ladder' of one kind of renumbering), reference call per chemistry in an interpreter of its own.  "
         f"End-to-end stream: regress e2e cases, every hand-written pair, {40 if quick else 400} generated symmetric rules, a seeded sample of "
         f"{40 if quick else 1500} corpus cases, each restricted to implicit-mode templates without explicit hydrogen and substrates of <= 25 atoms, "
-        "x {own direction, opposite direction} x {all, comp, bt}: real SynReactor vs driver command reactor.results on the recorded graphs.")
+        "x {own direction, opposite direction} x {all, comp, bt}: real SynReactor vs driver command reactor.results on the recorded graphs.  "
+        f"Explicit re-match stream (xh): {len(xh_templates())} rule-like templates with explicit hydrogen (H+ released / consumed, H2 released / consumed, "
+        "H-X additions / eliminations / shifts; most with a left-hand symmetry the right-hand side breaks, some unbroken controls) x {forward, backward} x "
+        f"{{hand-written substrates, {1 if quick else 4} generated substrate(s)}} x {{defaults, implicit_temp=True/explicit_h=False}}, full ITS (3/4) or centre, "
+        f"each case as above (base call twice + every raw match glued + {str(k) if quick else f'{k}x{k}'} variants), the cases whose pattern keeps no X-H (controls) "
+        f"thinned to a third; {6 if quick else 80} histories over the same chemistries.")
     ctx.nontrivial_rule = "distinct (template, direction, substrate, seeds) with >=1 reaction produced under strategy all"
     build_and_audit(ctx, ["SynKitProofs.Props.C05"], "SynKitProofs/Audit/C05.lean", THEOREMS)
 
@@ -463,9 +479,13 @@ def run(ctx):
         # end-to-end: the real SynReactor against the composed Lean reactor (after everything else: its draws change no other stream)
         e2e_stream(ctx, pool, e2e_select(ctx, [c for c in reg if c.get("stream") == "e2e"], extra, sym, cases,
                                          40 if quick else 1500, 40 if quick else 400), timeout)
-        stamps["e2e"] = round(time.time() - t, 1)
+        stamps["e2e"] = round(time.time() - t, 1); t = time.time()
+        # explicit re-match population (after everything else: its draws change no other stream)
+        xh_hists = xh_stream(ctx, pool, k, 1 if quick else 4, 6 if quick else 80, timeout, full=not quick)
     finally:
         pool.close()
+    xh_history_stream(ctx, xh_hists, timeout)
+    stamps["xh"] = round(time.time() - t, 1)
     ctx.obligation("correspondence: result sets invariant under template renumbering / substrate rewriting / repetition, also inside "
                    "one interpreter after other calls (histories); comp within all; bt = comp or all; pruning invisible", gates_ok)
 
@@ -1541,6 +1561,207 @@ def run_histories(ctx, fpool, hists, timeout, tag, shrink=3):
 
 def history_from_case(c):
     return {"name": c.get("name", "replay"), "shape": "given", "steps": c["steps"], "chems": c["chems"]}
+
+
+# ============================================================================= explicit re-match stream ("xh")
+# Templates whose pattern keeps an X-H bond when the reactor searches: the hydrogen cannot be folded into a count because it has
+# no heavy neighbour on one side of the rule (H+ / H2 released or consumed), or the template is applied with `implicit_temp=True,
+# explicit_h=False` (SynRule then strips nothing).  For these `SynReactor._glue_graph` goes through `_get_explicit_map`: the
+# hydrogens of the matched host atoms are expanded and the pattern WITH its hydrogens is matched once more, every re-match is
+# glued.  Corpus reactions almost never get there (their hydrogens are folded), so the population is written for it: rule-like
+# templates (context atoms without hydrogens) of reaction classes with explicit hydrogen, most of them with a left-hand symmetry
+# that the right-hand side breaks (one of two equal alpha positions is deprotonated, one of two equal X-H ends, one end of a
+# C=C takes the hydrogen, ...) plus unbroken controls; substrates are generated by `decorate` with substituents drawn per open
+# position (so the positions the template's symmetry exchanges usually differ chemically, and several placements of the pattern
+# cover the same heavy atoms with different products) and a few written by hand.  Every template is applied in BOTH hydrogen
+# modes (defaults / implicit_temp=True, explicit_h=False: the invariance the property states does not depend on the mode, cf.
+# C03 'explicit-H and implicit-H modes'), as full ITS (3 of 4) or centre template, forwards and backwards, under k x k (template
+# renumbering x substrate rewriting), repetition, all strategies, every raw match glued: gates G1-G5 as they are.  Some of the
+# chemistries are also run as histories (one interpreter, renumberings that keep the label set, automorphism option, template
+# objects shared) against their reference call.
+
+def xh_templates():
+    """-> [(name, mapped template, kind)] with kind in {'H+', 'H2', 'HX'} (what keeps the hydrogen explicit: H+ released, H2
+    released / consumed, or only the implicit-template mode)."""
+    out = []
+    # H+ released from one of two equal carbon positions next to a bridge: X(H)-B-X >> X(-)-B-X . H+
+    for name, bridge in (("ketone", "[C:2](=[O:3])"), ("thioketone", "[C:2](=[S:3])"), ("imine", "[C:2](=[N:3])"),
+                         ("sulfoxide", "[S:2](=[O:3])"), ("sulfone", "[S:2](=[O:3])(=[O:6])"), ("ether", "[O:2]"),
+                         ("thioether", "[S:2]"), ("amine", "[N:2]([C:3])"), ("methylene", "[C:2]"), ("phosphine_oxide", "[P:2](=[O:3])([C:6])")):
+        out.append((f"deprot_alpha_{name}", f"[C:1]([H:4]){bridge}[C:5]>>[C-:1]{bridge}[C:5].[H+:4]", "H+"))
+    # H+ released from one of two equal X-H ends of a chain (the other end: X-H or X-C in the substrate)
+    for X in ("O", "N", "S"):
+        for cname, chain in (("c2", "[C:2][C:3]"), ("c3", "[C:2][C:6][C:3]"), ("c1", "[C:2]"), ("acyl", "[C:2](=[O:6])[C:3]")):
+            out.append((f"deprot_{X}H_{cname}", f"[H:5][{X}:1]{chain}[{X}:4]>>[{X}-:1]{chain}[{X}:4].[H+:5]", "H+"))
+    # H+ consumed (as written: no X-H on the left; read backwards the pattern is the protonated side)
+    for X in ("N", "O"):
+        out.append((f"prot_{X}_c2", f"[{X}:1][C:2][C:3][{X}:4].[H+:5]>>[H:5][{X}+:1][C:2][C:3][{X}:4]", "H+"))
+    # the same with every hydrogen of the exchanged positions written out: the left-hand side WITH its hydrogens is symmetric
+    out += [
+        ("deprot_OH_c2_allH", "[H:5][O:1][C:2][C:3][O:4][H:6]>>[O-:1][C:2][C:3][O:4][H:6].[H+:5]", "H+"),
+        ("deprot_alpha_ketone_allH", "[H:4][C:1][C:2](=[O:3])[C:5][H:6]>>[C-:1][C:2](=[O:3])[C:5][H:6].[H+:4]", "H+"),
+        ("dehydrogenation_ccc_allH", "[H:4][C:1][C:2]([H:5])[C:3][H:6]>>[C:1]=[C:2][C:3][H:6].[H:4][H:5]", "H2"),
+        ("keto_enol_allH", "[H:6][C:1][C:2](=[O:3])[C:4][H:7]>>[C:1]=[C:2]([O:3][H:6])[C:4][H:7]", "HX"),
+    ]
+    out.append(("prot_alkene", "[C:1]=[C:2].[H+:3]>>[H:3][C:1][C+:2]", "H+"))
+    out.append(("prot_enolate_C_or_O", "[C-:1][C:2]=[O:3].[H+:4]>>[H:4][C:1][C:2]=[O:3]", "H+"))
+    # H2 released / consumed
+    out += [
+        ("dehydrogenation_ccc", "[C:1]([H:4])[C:2]([H:5])[C:3]>>[C:1]=[C:2][C:3].[H:4][H:5]", "H2"),
+        ("dehydrogenation_cc_ctx", "[C:3][C:1]([H:5])[C:2]([H:6])[C:4]>>[C:3][C:1]=[C:2][C:4].[H:5][H:6]", "H2"),
+        ("alcohol_oxidation", "[C:1]([H:3])[O:2][H:4]>>[C:1]=[O:2].[H:3][H:4]", "H2"),
+        ("diol_mono_oxidation", "[H:5][O:1][C:2]([H:6])[C:3][O:4]>>[O:1]=[C:2][C:3][O:4].[H:5][H:6]", "H2"),
+        ("amine_to_imine", "[C:3][N:1]([H:4])[C:2][H:5]>>[C:3][N:1]=[C:2].[H:4][H:5]", "H2"),
+        ("diene_12_hydrogenation", "[C:1]=[C:2][C:3]=[C:4].[H:5][H:6]>>[C:1]([H:5])[C:2]([H:6])[C:3]=[C:4]", "H2"),
+        ("diene_14_hydrogenation", "[C:1]=[C:2][C:3]=[C:4].[H:5][H:6]>>[H:5][C:1][C:2]=[C:3][C:4][H:6]", "H2"),
+        ("alkyne_semi_hydrogenation", "[C:1]#[C:2].[H:3][H:4]>>[H:3][C:1]=[C:2][H:4]", "H2"),
+        ("carbonyl_hydrogenation", "[C:1][C:2](=[O:3])[C:4].[H:5][H:6]>>[C:1][C:2]([H:5])([O:3][H:6])[C:4]", "H2"),
+        ("dehydro_coupling_XH", "[C:1][O:2][H:3].[H:4][Si:5]>>[C:1][O:2][Si:5].[H:3][H:4]", "H2"),
+        ("thiol_to_disulfide", "[C:1][S:2][H:3].[H:4][S:5][C:6]>>[C:1][S:2][S:5][C:6].[H:3][H:4]", "H2"),
+    ]
+    # hydrogen with a heavy neighbour on both sides: explicit re-match only with implicit_temp=True (ordinary path by default)
+    for X in ("Br", "Cl", "I"):
+        out.append((f"H{X}_addition", f"[C:1]=[C:2].[H:3][{X}:4]>>[H:3][C:1][C:2][{X}:4]", "HX"))
+        out.append((f"H{X}_elimination", f"[C:1]([H:5])[C:2]([{X}:4])[C:3]>>[C:1]=[C:2][C:3].[H:5][{X}:4]", "HX"))
+    out += [
+        ("hydration", "[C:1]=[C:2].[H:3][O:4]>>[H:3][C:1][C:2][O:4]", "HX"),
+        ("hydrothiolation", "[C:1]=[C:2].[H:3][S:4][C:5]>>[H:3][C:1][C:2][S:4][C:5]", "HX"),
+        ("hydroamination", "[C:1][N:2]([H:6])[C:3].[C:4]=[C:5]>>[C:1][N:2]([C:3])[C:4][C:5][H:6]", "HX"),
+        ("alkyne_HBr", "[C:1]#[C:2].[H:3][Br:4]>>[H:3][C:1]=[C:2][Br:4]", "HX"),
+        ("diene_HBr_12", "[C:1]=[C:2][C:3]=[C:4].[H:5][Br:6]>>[H:5][C:1][C:2]([Br:6])[C:3]=[C:4]", "HX"),
+        ("diene_HBr_14", "[C:1]=[C:2][C:3]=[C:4].[H:5][Br:6]>>[H:5][C:1][C:2]=[C:3][C:4][Br:6]", "HX"),
+        ("keto_enol", "[H:6][C:1][C:2](=[O:3])[C:4]>>[C:1]=[C:2]([O:3][H:6])[C:4]", "HX"),
+        ("allyl_shift", "[H:4][C:1][C:2]=[C:3]>>[C:1]=[C:2][C:3][H:4]", "HX"),
+        ("amination", "[C:1][Cl:2].[N:3][H:4]>>[C:1][N:3].[Cl:2][H:4]", "HX"),
+        ("diamine_mono_alkylation", "[H:7][N:1][C:2][C:3][N:4].[C:5][Br:6]>>[C:5][N:1][C:2][C:3][N:4].[H:7][Br:6]", "HX"),
+        ("aldol", "[C:1][C:2](=[O:3])[C:4][H:7].[C:5]=[O:6]>>[C:1][C:2](=[O:3])[C:4][C:5][O:6][H:7]", "HX"),
+        ("epoxide_opening_HX", "[C:1]1[O:2][C:3]1.[H:4][Cl:5]>>[H:4][O:2][C:1][C:3][Cl:5]", "HX"),
+        ("ester_hydrolysis", "[C:1][C:2](=[O:3])[O:4][C:5].[H:6][O:7]>>[C:1][C:2](=[O:3])[O:7].[C:5][O:4][H:6]", "HX"),
+    ]
+    return out
+
+
+# substrates written by hand (unsymmetrical where the template's left-hand side is symmetric): name -> {direction: [SMILES]}
+XH_HAND = {
+    "deprot_alpha_ketone": {"fw": ["CCC(C)=O", "CC(C)C(=O)CC"], "bw": ["[CH2-]C(=O)CC.[H+]"]},
+    "deprot_alpha_ether": {"fw": ["CCOC", "COC(C)C.O"]},
+    "deprot_alpha_sulfoxide": {"fw": ["CCS(C)=O"]},
+    "deprot_OH_c2": {"fw": ["CC(O)CO", "OCC(C)(C)O"]},
+    "deprot_NH_c2": {"fw": ["CC(N)CN", "CNCCN"]},
+    "dehydrogenation_ccc": {"fw": ["CCC(C)C", "CCCC"]},
+    "diol_mono_oxidation": {"fw": ["CC(O)CO", "OCC(O)c1ccccc1"]},
+    "alcohol_oxidation": {"fw": ["CC(O)CCO"]},
+    "diene_12_hydrogenation": {"fw": ["C=CC(C)=C.[H][H]"], "bw": ["CC(C)C=C", "CCC(C)=C"]},
+    "diene_14_hydrogenation": {"fw": ["C=CC(C)=C.[H][H]"], "bw": ["CC=C(C)C"]},
+    "HBr_addition": {"fw": ["CC=C.Br", "CC(C)=CC.Br"], "bw": ["CC(Br)CC"]},
+    "HCl_addition": {"fw": ["C=C(C)C.Cl"]},
+    "HBr_elimination": {"fw": ["CCC(C)Br", "CC(C)C(Br)CC"]},
+    "hydration": {"fw": ["CC=C.O", "C=C(C)C.CO"]},
+    "keto_enol": {"fw": ["CCC(C)=O"], "bw": ["CC=C(C)O"]},
+    "diene_HBr_12": {"fw": ["C=CC(C)=C.Br"]},
+    "diamine_mono_alkylation": {"fw": ["CC(N)CN.CBr"]},
+    "epoxide_opening_HX": {"fw": ["CC1CO1.Cl"]},
+    "prot_N_c2": {"fw": ["CC(N)CN.[H+]"], "bw": ["CC([NH3+])CN", "CC(N)C[NH3+]"]},
+    "prot_alkene": {"fw": ["CC=C.[H+]"], "bw": ["C[CH+]C"]},
+}
+
+
+def xh_pattern_keeps_xh(tpl, core, invert, mode):
+    """Decided from the inputs alone, for the input-distribution counters only: does the pattern the reactor searches with keep
+    a heavy-atom-hydrogen bond (so that `_glue_graph` takes the explicit re-match)?  With `implicit_temp=True` SynRule strips
+    nothing; by default it folds a hydrogen into its neighbour's count exactly when the hydrogen has a heavy neighbour on both
+    sides of the rule (`reactor_inv_common.pattern_atom_mixed_h` reads the same rule)."""
+    rs, ps = tpl.split(">>")
+    ra, rb, _, _ = C._side_table(rs)
+    _, pb, _, _ = C._side_table(ps)
+    if core:
+        changed = {e for e in set(rb) | set(pb) if rb.get(e, 0) != pb.get(e, 0)}
+        rb = {e: o for e, o in rb.items() if e in changed}
+        pb = {e: o for e, o in pb.items() if e in changed}
+    left, right = (pb, rb) if invert else (rb, pb)
+    el = {m: a[0] for m, a in ra.items()}
+
+    def heavy_nbr(bonds, h):
+        return any(el[v if u == h else u] != "H" for (u, v) in bonds if h in (u, v))
+
+    for h in el:
+        if el[h] == "H" and heavy_nbr(left, h) and (mode != "explicit" or not heavy_nbr(right, h)):
+            return True
+    return False
+
+
+def xh_bases(ctx, n_sub):
+    """(template, direction, hydrogen mode, centre / full ITS, substrate) quintuples of the stream; generated substrates: `n_sub`
+    per (template, direction), decorated with substituents at 60% (then 35%, 15%) of the open carbon positions, at most max(10, side + 2) heavy atoms (8
+    for the H2 templates; the re-match is run once per placement over the whole expanded substrate: cost grows with placements x
+    hydrogens)."""
+    from rdkit import Chem
+
+    rnd = ctx.rnd
+    bases = []
+    for name, tpl, kind in xh_templates():
+        info = C.analyze_reaction(tpl)
+        if not info["ok"] or info["mode"] != "explicit":
+            ctx.count("xh:template_unusable")   # a slip in the hand-written list: counted, never silently used in another mode
+            continue
+        for invert in (False, True):
+            side = tpl.split(">>")[1 if invert else 0]
+            subs = list(XH_HAND.get(name, {}).get("bw" if invert else "fw", []))
+            n_hand = len(subs)
+            n_side = sum(1 for a in C._side_table(side)[0].values() if a[0] != "H")
+            cap = max(8 if kind == "H2" else 10, n_side + 2)
+            for attempt in range(9 * n_sub):
+                if len(subs) >= n_hand + n_sub:
+                    break
+                # fewer substituents when the first draws came out too large for the cap
+                s = decorate(side, rnd, p_group=(0.6, 0.35, 0.15)[attempt // (3 * n_sub)], p_spectator=0.15, max_heavy=cap)
+                if s and s not in subs:
+                    subs.append(s)
+            if len(subs) == n_hand:
+                ctx.count("xh:template_direction_without_generated_substrate")
+            for j, s in enumerate(subs):
+                if Chem.MolFromSmiles(s) is None:
+                    ctx.count("xh:substrate_unusable")
+                    continue
+                core = rnd.random() < 0.25
+                for mode in ("explicit", "implicit"):
+                    bases.append({"name": f"xh:{name}/{'centre' if core else 'its'}/{'bw' if invert else 'fw'}/{mode}/{'hand' if j < n_hand else 'gen'}{j}",
+                                  "template": tpl, "core": core, "invert": invert, "mode": mode, "substrate": s, "family": "xh", "xh_kind": kind})
+    return bases
+
+
+def xh_stream(ctx, pool, k, n_sub, n_hist, timeout, full=True, p_control=0.34):
+    """The case stream of the explicit re-match population (pool workers, gates G1-G5 through `run_cases`); every case whose pattern
+    keeps an X-H bond and a seeded third of the others (controls: the ordinary path).  -> the histories drawn over the same
+    chemistries, for `xh_history_stream`."""
+    ctx.xh_before = len(ctx.violations)
+    bases = []
+    for b in xh_bases(ctx, n_sub):
+        keeps = xh_pattern_keeps_xh(b["template"], b["core"], b["invert"], b["mode"])
+        if not keeps and ctx.rnd.random() >= p_control:
+            continue
+        bases.append(b)
+        ctx.count(f"xh:cases:{b['xh_kind']}:{b['mode']}")
+        ctx.count("xh:cases_whose_pattern_keeps_X-H(explicit re-match):" + ("yes" if keeps else "no (control)"))
+    # quick tier: k variants per case instead of k x k (one renumbering x k rewritings and k renumberings x one rewriting in turn)
+    cases = [dict(b, tseeds=[ctx.rnd.randrange(1, 2**30) for _ in range(k if (full or i % 2) else 1)],
+                  sseeds=[ctx.rnd.randrange(1, 2**30) for _ in range(k if (full or not i % 2) else 1)]) for i, b in enumerate(bases)]
+    hists = build_histories(ctx, bases, n_hist) if n_hist else []
+    run_cases(ctx, pool, cases, timeout, "xh")
+    return hists
+
+
+def xh_history_stream(ctx, hists, timeout):
+    """Histories over the explicit re-match chemistries (fresh interpreter each, reference call per chemistry in its own)."""
+    if hists:
+        fpool = FreshPool()
+        try:
+            run_histories(ctx, fpool, hists, timeout, "xh-history")
+        finally:
+            fpool.close()
+    ctx.obligation("explicit re-match population (X-H kept in the pattern: H+ / H2 templates, explicit-H templates in implicit-template mode; both "
+                   "hydrogen modes): result sets invariant under template renumbering / substrate rewriting / repetition / history; comp within "
+                   "all; bt = comp or all; pruning invisible", len(ctx.violations) == ctx.xh_before)
 
 
 def replay(ctx, case):
